@@ -17,10 +17,12 @@ limitations under the License.
 package websockets
 
 import (
+	"bytes"
 	"encoding/base64"
 	"encoding/json"
 	"errors"
 	"fmt"
+	"io"
 	"log"
 	"net/http"
 	"time"
@@ -278,10 +280,17 @@ func injectWebsocketMessage(msg *message, injectionPath []string, injectionValue
 		return msg, nil
 	}
 	// Deserialize the websocket message into a JSON object.
+	// Numbers are kept as they were written (json.Number) so that re-serializing the message
+	// does not alter values that a float64 cannot represent, such as 64-bit integer IDs.
 	var origJSONComponent map[string]interface{}
-	err := json.Unmarshal(msg.Data, &origJSONComponent)
+	decoder := json.NewDecoder(bytes.NewReader(msg.Data))
+	decoder.UseNumber()
+	err := decoder.Decode(&origJSONComponent)
 	if err != nil {
 		return nil, fmt.Errorf("failed to unmarshal as json message: %v", err)
+	}
+	if _, err := decoder.Token(); err != io.EOF {
+		return nil, errors.New("failed to unmarshal as json message: unexpected data after the top-level value")
 	}
 	var currJSONComponent map[string]interface{}
 	var ok bool
